@@ -101,6 +101,15 @@ def eval_case(case):
         ab2 = sgn(_sw(product, a[0], a[1]).compare_version(_sw(product, b[0], b[1])))
         if ab2 != ab:
             fails.append(['object-vs-string-form', '%s: %r vs %r: %d / %d' % (product, a, b, ab2, ab)])
+        # ... and so must the release as the tool identifies it from an identification string (that is where a server's version comes from)
+        if len(a[0]) >= 2 and len(a[0]) <= 64 and '.' in a[0]:
+            from ssh_audit.banner import Banner
+            from ssh_audit.software import Software
+            sb = Software.parse(Banner.parse(BANNER_FMT[product] % (a[0], a[1])))
+            if sb is None or sb.version != a[0]:
+                fails.append(['version-identified-from-banner-differs', '%s: banner %r identified as version %r patch %r' % (product, BANNER_FMT[product] % (a[0], a[1]), getattr(sb, 'version', None), getattr(sb, 'patch', None))])
+            elif sgn(sb.compare_version(b[0] + b[1])) != ab:
+                fails.append(['judgement-from-banner-differs', '%s: %r vs %r: %d from the banner, %d from the version' % (product, a, b, sgn(sb.compare_version(b[0] + b[1])), ab)])
         # between_versions is the conjunction of the two comparisons
         lo, hi = (a, b) if (ta, a[1]) <= (tb, b[1]) else (b, a)
         s = _sw(product, a[0], a[1])
@@ -344,6 +353,22 @@ def run(ctx):
                 cli.append({'kind': 'cli', 'product': p, 'ver': '.'.join(map(str, t[:-1])), 'patch': ''})
                 cli.append({'kind': 'cli', 'product': p, 'ver': '.'.join(map(str, t + [0])), 'patch': ''})
                 cli.append({'kind': 'cli', 'product': p, 'ver': '.'.join(map(str, t + [1])), 'patch': ''})
+    # releases whose text merely *contains* a version of the table (in front of it, behind it, as digits of a longer number)
+    for p, s2 in vs.items():
+        for v in sorted(s2, key=refmodel.vtuple):
+            if '.' not in v:
+                continue
+            for ver in ('1.' + v, '2.' + v, '1' + v, v + '9', v + '.0.0.1', '0.' + v, v.replace('.', '.0', 1), '1' + v.replace('.', '.1', 1)):
+                if len(cli) % (3 if q else 1) == 0:
+                    cli.append({'kind': 'cli', 'product': p, 'ver': ver, 'patch': ''})
+                else:
+                    cli.append(None)
+    cli = [c for c in cli if c is not None]
+    # long version texts: four components of three and four digits each (what a cap on the token's length would cut)
+    for p in vs:
+        for ver in ('2024.2025.100.101', '2024.2025.100.10', '2011.2012.2013.2014', '100.101.2024.12', '9.10.2024.2025', '12.101.100.2024', '2024.2024.2024.2023'):
+            for patch in PATCHES[p][:2]:
+                cli.append({'kind': 'cli', 'product': p, 'ver': ver, 'patch': patch})
     ctx.map(cli)
     seq = []
     for p, s_ in vs.items():
